@@ -657,6 +657,11 @@ class Walker:
                     for s3, t3 in self.split(n.test, s2):
                         if not t3:
                             out.extend(self.block(n.orelse, [s3]) if n.orelse else [s3])
+                        elif isinstance(n.test, ast.Constant):
+                            # `while True`: this iteration is followed by another one; keep it as a prefix path so that its
+                            # events (stores, bindings of loop-carried variables) stay visible to whole-function analyses
+                            s3.exit = ("loop", NONE, n)
+                            out.append(s3)
                 elif s2.exit[0] == "break":
                     s2.exit = None
                     out.append(s2)
@@ -1370,7 +1375,7 @@ class Walker:
         out = []
         for s in self.block(f.body(), cur):
             ex = s.exit
-            if ex is not None and ex[0] == "raise":
+            if ex is not None and ex[0] in ("raise", "loop"):
                 out.append((s, ("unk", "raised")))
                 continue
             rv = ex[1] if ex is not None and ex[0] == "return" else NONE
